@@ -85,7 +85,7 @@ def fl(x: float) -> str:
 # ---------------------------------------------------------------- model side
 def dtok(d: Decimal) -> str:
     s, digits, e = d.as_tuple()
-    return f"{s}:{int(''.join(map(str, digits)))}:{e}"
+    return f"{s}:{''.join(map(str, digits)).lstrip('0') or '0'}:{e}"
 
 
 def tok_dec(t: str) -> Decimal:
@@ -158,7 +158,11 @@ def short(x, n=70):
     try:
         r = repr(x)
     except ValueError:
-        return f"<int of {x.bit_length()} bits>"
+        if isinstance(x, int):
+            return f"<int of {x.bit_length()} bits>"
+        if isinstance(x, (tuple, list)):
+            return "(" + ", ".join(short(e, n) for e in x) + ")"
+        return f"<{type(x).__name__}>"
     return r if len(r) <= n else r[:n - 22] + f"...({len(r)} chars)"
 
 
@@ -389,7 +393,7 @@ def gen_num(tier, r):
         mn, mx, st = rand_bounds(r, fmt)
         for _ in range(3):
             cases.append((fmt, mn, mx, st, rand_value(r, fmt, mn, mx, st)))
-    return cases
+    return [c for c in cases if driver_can_align(c)]
 
 
 GARBAGE = ["abc", "", " ", "1,5", "0x10", "1e", "--1", "12 3", "1.2.3", "NaN", "nan", "sNaN", "Infinity", "-inf", "inf", "+Infinity",
@@ -417,20 +421,93 @@ def gen_bad(tier, r):
         s = "".join(r.choice(alphabet) for _ in range(r.choice([1, 2, 3, 4, 6, 9])))
         fmt = r.choice(NUM_FORMATS + ["bool", "bool"])
         cases.append((fmt,) + r.choice([(None, None, None), (0, 100, 1), (0, 50, 0.5)]) + (s,))
-    return [c for c in cases if in_domain(c[4])]
+    return [c for c in cases if driver_can_align(c)]
 
 
-def in_domain(val):
-    """exponent range kept far inside Emin/Emax (not modelled) and inside float range"""
+# ---------------------------------------------------------------- numbers no format can hold, and numbers next to nothing
+EXTREME_VALUES = ["1e1000000", "-1e1000000", "1e400", "-1e400", "1e309", "9.99999e308", "9.99999e307", "1e308", "-1e308",
+                  "1.797693134862315807e308", "1.797693134862315808e308", "-1.797693134862315808e308", 1.7976931348623157e308,
+                  -1.7976931348623157e308, "1.7976931348623157e308", "1.79769e308", "1.797695e308",
+                  10 ** 5000, -10 ** 5000, 10 ** 308, 10 ** 309, 10 ** 309 - 1, 2 ** 1024, 2 ** 1024 - 2 ** 970, 2 ** 1024 - 2 ** 970 - 1,
+                  "1" + "0" * 4400, "1e999999", "9.99999e999999", "9.999995e999999", "1e999999999999999999", "-1e999999999999999999",
+                  "1e5000", "1e20", "1e19", str(2 ** 64), "123456789e300",
+                  "1e-1000000", "-1e-1000000", "1e-400", "-1e-400", 5e-324, "5e-324", "3.49996e-1000000", "1e-999999999999999999",
+                  "0e1000000", "0e-1000000", "-0e999999999", "0e999999999999999999", "0e-999999999999999999", "-0.0e-400"]
+EXTREME_BOUNDS = [(None, None, None), (None, None, 1), (None, None, 0.5), (0, 100, 1), (0, 100, 0.5), (0, None, 1), (0, None, None),
+                  (None, 100, 0.5), (None, 10 ** 300, 7), (0, 1e308, 0.1), (0, 1.7976931348623157e308, 1e300), (-1e308, 1e308, 1e292)]
+# bounds / steps no JSON number can carry (they reach decimal's own Emax); the additions they need stay within a few digits
+EXTREME_METADATA = [(("float", None, None, "1e-999999"), 5), (("float", None, None, "1e-999999"), "1e10"), (("float", None, None, "1e999999"), 5),
+                    (("float", "1e999999", None, "1e999999"), "9e999999"), (("uint8", None, "1e999999", None), "1e1000000"),
+                    (("float", None, None, "1e-600000"), "1e400000"), (("float", None, None, "1e-600000"), "1e300"),
+                    (("float", None, "1e999999", "1e999994"), "9.999995e999999")]
+
+
+def gen_extreme(tier):
+    cases = []
+    for fmt in ["uint8", "uint64", "int", "float"]:
+        for b in EXTREME_BOUNDS:
+            for v in EXTREME_VALUES:
+                cases.append((fmt,) + b + (v,))
+    for (f, mn, mx, st), v in EXTREME_METADATA:
+        cases.append((f, mn, mx, st, v))
+    for v in [10 ** 5000, -10 ** 4301, 10 ** 4299, "1e1000000", "1e-1000000"]:
+        cases.append(("bool", None, None, None, v))
+    return [c for c in cases if driver_can_align(c)]
+
+
+def driver_can_align(case):
+    """The model is exact for every exponent, but the extracted driver adds two non-zero numbers by writing both with the smaller
+    exponent: a non-zero value below 1e-5000 next to a non-zero minimum that does not clamp it would need a million-digit
+    coefficient.  Such additions are not generated (the only generator restriction left; counted in the evidence)."""
+    fmt, mn, mx, st, val = case
+    d = stepgrid.dec_reading(val)
+    if d is None or not st or fmt == "bool":
+        return True
+    c = stepgrid.clamp_dec(d, mn, mx)
+    off = Decimal(mn) if mn is not None else Decimal(0)
+    return not (c and off and abs(c.as_tuple().exponent - off.as_tuple().exponent) > 5000 and c.adjusted() <= 308)
+
+
+def dangerous(case):
+    """integer format, no effective maximum, astronomically large value: code without the magnitude guard builds the integer
+    (seconds to forever, gigabytes) - such cases run in a child process with a deadline"""
+    fmt, mn, mx, st, val = case
+    if fmt in ("bool", "float"):
+        return False
+    d = stepgrid.dec_reading(val)
+    if d is None or not d:
+        return False
+    c = stepgrid.clamp_dec(d, mn, mx)
+    return bool(c) and c.adjusted() > 5000
+
+
+_CHILD = r"""
+import sys, pickle
+sys.path.insert(0, sys.argv[1]); sys.path.insert(0, sys.argv[2])
+import c14
+cases = pickle.load(sys.stdin.buffer)
+impl = c14.Impl()
+for c in cases:
+    print(impl.run(*c), flush=True)
+"""
+
+
+def run_in_child(ctx, cases, deadline=8):
+    """results of impl.run for these cases from a child process; what did not finish in time is 'other:Timeout'"""
+    import os
+    import pickle
+    import subprocess
+    import sys
+    if not cases:
+        return []
+    args = [sys.executable, "-B", "-c", _CHILD, ctx["repo"], os.path.join(ctx["verif"], "harness")]
     try:
-        d = Decimal(val)
-    except Exception:  # noqa
-        return True
-    if not d.is_finite():
-        return True
-    if d == 0:
-        return abs(d.as_tuple().exponent) < 400
-    return -400 < d.adjusted() < 300 and d.as_tuple().exponent > -1200
+        out = subprocess.run(args, input=pickle.dumps(cases), stdout=subprocess.PIPE, stderr=subprocess.DEVNULL, timeout=deadline).stdout
+    except subprocess.TimeoutExpired as e:
+        out = e.stdout or b""
+    lines = out.decode().split("\n")
+    lines = [x for x in lines if x]
+    return lines[:len(cases)] + ["other:Timeout"] * (len(cases) - len(lines))
 
 
 def rand_dec(r):
@@ -445,6 +522,25 @@ def gen_ops(tier, r):
     for _ in range(n):
         out.append((r.choice(["add", "sub", "mul", "div", "fix", "toint", "cmp", "int"]), r.choice([6, 6, 6, 1, 2, 3, 9, 28]),
                     r.choice(["up", "up", "even"]), rand_dec(r), rand_dec(r)))
+    # the edges of decimal's exponent range: Overflow above Emax = 999999, subnormal rounding at Etiny, clamped zeros
+    def edge(base):
+        nd = r.choice([1, 2, 5, 6, 7, 8, 12])
+        c = r.choice([0, 1, 5, 10 ** nd - 1, 10 ** (nd - 1), 5 * 10 ** (nd - 1), r.randrange(10 ** nd), 349996, 999999, 9999995])
+        return Decimal((r.randrange(2), tuple(int(ch) for ch in str(c)), base + r.randint(-12, 12)))
+    for _ in range(n // 8):
+        name = r.choice(["add", "sub", "mul", "div", "fix", "cmp", "toint"])
+        prec, mode = r.choice([6, 6, 3, 9]), r.choice(["up", "up", "even"])
+        top = r.random() < 0.5
+        if name in ("add", "sub", "fix", "cmp", "toint"):
+            base = 999990 if top else -1000000
+            a, b = edge(base), edge(base)
+            if name == "toint" and top:
+                a = edge(-1000000)
+        elif name == "mul":
+            a, b = (edge(500000), edge(499990)) if top else (edge(-500000), edge(-500000))
+        else:
+            a, b = (edge(500000), edge(-499990)) if top else (edge(-500000), edge(500000))
+        out.append((name, prec, mode, a, b))
     return out
 
 
@@ -469,7 +565,7 @@ def py_op(name, prec, mode, a, b):
                 return "cmp " + ("lt" if a < b else "gt" if a > b else "eq")
             if name == "int":
                 return "int %d" % int(a)
-        except (decimal.DivisionByZero, decimal.InvalidOperation):
+        except (decimal.DivisionByZero, decimal.InvalidOperation, decimal.Overflow):
             return "none"
 
 
@@ -772,18 +868,16 @@ def coq_request(line):
     _, name, prec, mode, *args = t
     cx = f"(mkCtx {int(prec)}%N {_COQ_MODE[mode]})"
     a = [_coq_dec(x) for x in args]
-    if name in ("add", "sub", "mul"):
-        return f"show_d (d{name} {cx} {a[0]} {a[1]})"
-    if name == "div":
-        return f"show_o (ddiv {cx} {a[0]} {a[1]})"
+    if name in ("add", "sub", "mul", "div"):
+        return f"show_o (d{name}b {cx} {a[0]} {a[1]})"
     if name == "fix":
-        return f"show_d (dfix {cx} {a[0]})"
+        return f"show_o (dfixb {cx} {a[0]})"
     if name == "toint":
-        return f"show_d (to_integral {_COQ_MODE[mode]} {a[0]})"
+        return f"show_d (to_integral_f {_COQ_MODE[mode]} {a[0]})"
     if name == "cmp":
-        return f"show_c (dcompare {a[0]} {a[1]})"
+        return f"show_c (dcmp {a[0]} {a[1]})"
     if name == "int":
-        return f"[3; dec_to_Z {a[0]}]"
+        return f"[3; dec_to_Z_f {a[0]}]"
     raise ValueError(line)
 
 
@@ -878,17 +972,20 @@ def run(ctx):
     if replay_case is not None:
         streams = [("replay", [replay_case])]
     else:
-        streams = [("grid", gen_grid(tier)), ("num", gen_num(tier, rng(seed, "c14num"))), ("bad", gen_bad(tier, rng(seed, "c14bad")))]
+        streams = [("grid", gen_grid(tier)), ("num", gen_num(tier, rng(seed, "c14num"))), ("bad", gen_bad(tier, rng(seed, "c14bad"))),
+                   ("extreme", gen_extreme(tier))]
     xpairs = []          # (request line, raw driver answer) of the whole run, for the vm_compute cross-check
     for sname, cases in streams:
         lines = [model_line(*c) for c in cases]
         raw = drv.batch(lines)
         xpairs += zip(lines, raw)
         model = [model_canon(a) for a in raw]
+        risky = [i for i, c in enumerate(cases) if dangerous(c)]
+        child = dict(zip(risky, run_in_child(ctx, [cases[i] for i in risky])))
         for idx, (case, m) in enumerate(zip(cases, model)):
             fmt, mn, mx, st, val = case
-            got = impl.run(*case)
-            if idx % 5 == 0:
+            got = child[idx] if idx in child else impl.run(*case)
+            if idx % 5 == 0 and idx not in child:
                 direct = impl.run(*case, direct=True)
                 if direct != got:
                     add(f"{sname}:build_update-differs", f"build_update gives {got[:80]}, check_convert_value gives {direct[:80]} on {short(case, 300)}", True,
@@ -954,9 +1051,10 @@ def run(ctx):
     cov.extra["exhaustive_part"] = ("grid: every uint8 characteristic with 0 <= min <= max <= 20, every integer step 1..21 and every "
                                     "integer input -1..max+3 (inputs beyond that clamp to the same value), plus a 3/7 slice of "
                                     "them as str / float / float metadata")
-    cov.extra["domain_exclusions"] = ("decimal exponent range Emin/Emax (+-999999) is not modelled: generated values keep |exponent| < 400 and "
-                                      "float() overflow (|x| >= 1.8e308) is outside the domain; formats string/data/tlv8/array/dict are "
-                                      "not part of C14")
+    cov.extra["generator_restrictions"] = ("none on the value domain: exponents of any size are generated (stream `extreme`: 1e1000000, 1e-1000000, "
+                                           "1e999999999999999999, 10**5000, the doubles next to the overflow threshold ...).  Not generated: a non-zero value "
+                                           "below 1e-5000 together with a non-zero minimum that does not clamp it, and metadata whose exponents "
+                                           "differ by more than 5000 (the extracted driver would align million-digit coefficients; the model itself is exact)")
     cov.extra["oracle"] = ("fractions.Fraction on the decimal reading: clamp, r = round-half-away-from-zero((clamp(v)-min)/step), min + r*step; "
                            "exact for integer formats with integer inputs and whenever v-min, quotient, r*step and the sum have <= 6 "
                            "significant digits; otherwise within the 6-digit rounding error of 4 operations (5e-6 relative each)")
